@@ -1191,3 +1191,13 @@ m('S1-loader-normalises-the-flag', 'C11', 'S1', 'FromPickleable/flags-only-from-
     PYTREESPEC_SANITY_CHECK(*out);
     return out;
 }""")
+m('G1-only-builtins-can-be-registered', 'C12', 'G1', 'RegisterImpl/builtin-rejected', 'src/registry.cpp',
+  """    if (sm_builtins_types.find(cls) != sm_builtins_types.end()) [[unlikely]] {
+        throw py::value_error("PyTree type " + PyRepr(cls) +
+                              " is a built-in type and cannot be re-registered.");""",
+  """    if (sm_builtins_types.find(cls) == sm_builtins_types.end()) [[unlikely]] {
+        throw py::value_error("PyTree type " + PyRepr(cls) +
+                              " is a built-in type and cannot be re-registered.");""")
+m('S2-registered-custom-types-rejected-on-load', 'C11', 'S2', 'FromPickleable/null-registration-rejected', 'src/treespec/serialization.cpp',
+  """            if (node.custom == nullptr) [[unlikely]] {""",
+  """            if (node.custom != nullptr) [[unlikely]] {""")
